@@ -196,7 +196,10 @@ func garbage(r *kit.Rng, donors []string) (string, string) {
 			return "APPLICATION a(); WORKSPACE W ( TABLE T INHERITS sys.CDoc (a int32 CHECK (" + strings.Repeat("(", k) + "a" + strings.Repeat(")", k) + " > 0)); );", "nested-expression"
 		case 2:
 			if k%2 == 0 { // with a ';' before every level (a depth counter must not start over at a ';')
-				return "APPLICATION a(); " + strings.Repeat("WORKSPACE W (; ", k), "nested-workspaces-semicolons"
+				if k <= 3000 {
+					k += 1001 // 1001..4001 levels: over the guard, far below what exhausts a stack - the refusal must name the guard
+				}
+				return "APPLICATION a(); " + strings.Repeat("WORKSPACE W (; ", k), "nested-workspaces-semicolons-over-1000"
 			}
 			return "APPLICATION a(); " + strings.Repeat("WORKSPACE W (", k), "nested-workspaces"
 		default:
